@@ -181,7 +181,7 @@ func c20Tier(tier string) (L, exh, random int) {
 		return n * 3
 	}
 	if tier == "thorough" {
-		return 5, cnt(5), 3000000
+		return 5, cnt(5), 10000000
 	}
 	return 4, cnt(4), 200000
 }
